@@ -158,7 +158,7 @@ static long run_history(const Args &a, uint64_t seqseed, long cs, AllocCtl &st, 
 	auto refill = [&]() { for (int i = 0; i < nobj; i++) if (!obj[i]) obj[i] = fresh(i); };
 	auto fail = [&](const std::string &key) { viol("C20:" + key, "{\"faulted\":" + std::string(faulted ? "true" : "false") + ",\"fail_at_allocation\":" + std::to_string(st.fail_at) + ",\"history\":" + jstr(hist.substr(hist.size() > 1100 ? hist.size() - 1100 : 0)) + "}"); };
 	for (int op = 0; op < nops && out().nviol < 4; op++) {
-		int kind = (int)r.below(20); int ti = (int)r.below(nobj), tj = (int)r.below(nobj); ATable *&T = obj[ti];
+		int kind = (int)r.below(22); int ti = (int)r.below(nobj), tj = (int)r.below(nobj); ATable *&T = obj[ti];
 		Snap before = snap(*T); bool populated = before.ndim != 0; bool threw = false; std::string what; long failed0 = st.failed;
 		auto post_failed = [&](const char *name) { // a failed operation leaves the object unchanged or empty
 			Snap af = snap(*T); if (!(snap_eq(af, before) || (af.ndim == 0 && af.aux.empty()) || (af.ndim == 0 && af.aux == before.aux && before.ndim == 0))) fail(std::string(name) + ":failed-operation-left-object-changed-but-not-empty"); };
@@ -226,6 +226,31 @@ static long run_history(const Args &a, uint64_t seqseed, long cs, AllocCtl &st, 
 				if (!populated && !threw) fail("write:empty-table-written"); if (populated && threw) fail("write:populated-table-could-not-be-written");
 				if (!threw) { ATable R{CA<void>(arena(nobj))}; bool rd = true; try { if (mem) R.read_fits_mem(w.first, w.second); else R.read_fits(outp); } catch (std::exception &e) { rd = false; } if (rd && !(R == *T) ) { bool nan = false; for (float c : before.coef) if (std::isnan(c)) nan = true; if (!nan) fail("write:written-table-reads-back-different"); } if (!rd && st.failed == failed0) fail("write:written-table-unreadable"); }
 				free(w.first); unlink(outp.c_str()); if (!snap_eq(snap(*T), before)) fail("write:writing-changed-the-table"); break; }
+			case 20: case 21: { // stacking constructor: object tj is replaced by a table stacked from 2-4 copies of object ti along a new last dimension
+				if (!populated || before.coef.size() > 300 || before.ndim > 4) break; int nl = r.range(2, 4); int so = r.range(1, 3);
+				if (r.coin(0.25)) { // invalid requests must be refused: a single table, coordinate count mismatch, coordinates not increasing, an empty table among the inputs, tables of different shape
+					int iv = (int)r.below(5); std::vector<ATable *> lay(nl, T); std::vector<double> zz; for (int i = 0; i < nl; i++) zz.push_back(i * 1.0); ATable emptyT{CA<void>(arena(nobj))};
+					if (iv == 0) { lay.resize(1); zz.resize(1); } else if (iv == 1) zz.push_back(9.0); else if (iv == 2) std::swap(zz[0], zz[1]); else if (iv == 3) lay[nl - 1] = &emptyT;
+					else { ATable *other = obj[tj]; bool same = ti == tj || !(other->get_ndim()) ? true : (other->get_ndim() == T->get_ndim()); if (same && other != T && other->get_ndim() == T->get_ndim()) { same = true; for (unsigned d = 0; d < T->get_ndim(); d++) if (other->get_nknots(d) != T->get_nknots(d) || other->get_order(d) != T->get_order(d)) same = false; } if (same || other->get_ndim() == 0) break; lay[0] = other; }
+					hist += "stack(invalid:" + std::to_string(iv) + ");"; phase_log("stacking constructor (invalid arguments)"); ATable *S2 = nullptr;
+					try { S2 = new ATable(lay, zz, so, CA<void>(arena(tj))); } catch (std::exception &e) { threw = true; }
+					if (!threw) { fail("stacking-constructor:invalid-arguments-accepted:" + std::to_string(iv)); delete S2; } else count("stacking-constructor:invalid-requests-refused");
+					if (!snap_eq(snap(*T), before)) fail("stacking-constructor:changed-its-input"); break; }
+				std::vector<ATable *> layers(nl, T); std::vector<double> zs; double z = -1.0; for (int i = 0; i < nl; i++) { zs.push_back(z); z += 0.5 + r.U(); }
+				hist += "stack" + std::to_string(tj) + "<-" + std::to_string(nl) + "x" + std::to_string(ti) + "(order" + std::to_string(so) + ");"; phase_log("stacking constructor");
+				ATable *S = nullptr; try { S = new ATable(layers, zs, so, CA<void>(arena(tj))); } catch (std::exception &e) { threw = true; }
+				if (threw) { if (st.failed == failed0) fail("stacking-constructor:threw-on-valid-arguments"); break; }
+				if (!snap_eq(snap(*T), before)) fail("stacking-constructor:changed-its-input");
+				if (S->get_ndim() != before.ndim + 1) fail("stacking-constructor:result-has-wrong-dimension");
+				{ std::string wf = wellformed(*S); if (!wf.empty()) fail("stacking-constructor:result-not-well-formed:" + wf); }
+				if (ti == tj) { delete S; break; } // (the input must outlive nothing: the result owns copies)
+				// all layers are the same table, so along the new dimension the result is constant (partition of unity): S(x, z) = T(x) inside the extents
+				{ phase_log("evaluation of stacked table"); unsigned nd0 = before.ndim; std::vector<double> x(nd0 + 1); double cmax = 0; for (float c : before.coef) cmax = std::max(cmax, (double)std::fabs(c));
+				  for (int q = 0; q < 6 && std::isfinite(cmax); q++) { for (unsigned d = 0; d < nd0; d++) { double lo = before.knots[d][before.order[d]], hi = before.knots[d][before.nknots[d] - before.order[d] - 1]; x[d] = lo + (hi - lo) * r.U(); }
+				    double zl = S->lower_extent(nd0), zh = S->upper_extent(nd0); x[nd0] = zl + (zh - zl) * r.U(); double a0 = (*T)(x.data()), a1 = (*S)(x.data());
+				    if (std::isfinite(a0) && !(std::fabs(a1 - a0) <= 1e-4 * (std::fabs(a0) + cmax) + 1e-30)) { fail("stacking-constructor:stack-of-identical-tables-is-not-constant-along-the-new-dimension"); break; } count("stacked-table-evaluations"); } }
+				delete obj[tj]; obj[tj] = S; phase_log("use of stacked table"); use_table(*S, r);
+				break; }
 			case 17: case 18: { hist += "use" + std::to_string(ti) + ";"; phase_log("getters+evaluation"); std::string wf = wellformed(*T); if (!wf.empty()) fail("state:table-not-well-formed:" + wf); use_table(*T, r); break; }
 			default: { if (!populated) { hist += "grideval" + std::to_string(ti) + "(empty-table);"; phase_log("grideval on empty table"); std::vector<std::vector<double>> g0; try { auto res = T->grideval(g0); } catch (std::exception &e) { threw = true; } if (!threw) fail("grideval:empty-table-accepted"); break; }
 				if (before.coef.size() > 600) break; hist += "grideval" + std::to_string(ti) + ";"; phase_log("grideval"); std::vector<std::vector<double>> g(before.ndim); for (unsigned d = 0; d < before.ndim; d++) for (int i = 0; i < 2; i++) g[d].push_back(before.knots[d][0] + (before.knots[d].back() - before.knots[d][0]) * r.U()); try { auto res = T->grideval(g); } catch (std::exception &e) { threw = true; } if (threw && st.failed == failed0) fail("grideval:threw-without-fault"); if (!snap_eq(snap(*T), before)) fail("grideval:changed-the-table"); break; }
